@@ -102,60 +102,65 @@ def attrNorm (phase : Nat) (t : Tok) : Option Tok × Nat :=
   else if phase == 2 && t.tt == .ident then (some (.mk .ident (lower t.data) []), 2)
   else (some t, phase)
 
-/-- the An+B part of `:nth-child(…)`: lexemes up to `of` or the closing parenthesis, lower-cased and without white
-space (`2N + 1` and `2n+1` are the same formula whatever the token boundaries), and the rest -/
-def anbSpan : List Tok → List Char × List Tok
-  | [] => ([], [])
-  | t :: r =>
-    if t.tt == .rightParen || (t.tt == .ident && lower t.data == "of".toList) then ([], t :: r)
-    else ((if t.tt == .whitespace then [] else lower t.data) ++ (anbSpan r).1, (anbSpan r).2)
+/-- tag of an An+B fragment in the intermediate normal form (no lexer token has this class in a selector) -/
+def anbTT : TT := .empty
 
-/-- normal form; `stack` = contexts of the enclosing parentheses (innermost first, `[]` = a selector list),
-`attr` = `some phase` inside `[…]`; the `Nat` is fuel (token count) -/
-def normGo (cfg : Cfg) : Nat → List Ctx → Prev → Option Nat → List Tok → List Tok
-  | 0, _, _, _, _ => []
-  | _ + 1, _, _, _, [] => []
-  | fuel + 1, stack, _, some phase, t :: r =>
-    if t.tt == .rightBracket then t :: normGo cfg fuel stack .none none r
+/-- normal form before An+B fragments are merged; `stack` = contexts of the enclosing parentheses (innermost first,
+`[]` = a selector list), `attr` = `some phase` inside `[…]` -/
+def normGo (cfg : Cfg) : List Ctx → Prev → Option Nat → List Tok → List Tok
+  | _, _, _, [] => []
+  | stack, _, some phase, t :: r =>
+    if t.tt == .rightBracket then t :: normGo cfg stack .none none r
     else
       match attrNorm phase t with
-      | (some t', ph) => t' :: normGo cfg fuel stack .none (some ph) r
-      | (none, ph) => normGo cfg fuel stack .none (some ph) r
-  | fuel + 1, stack, prev, none, t :: r =>
+      | (some t', ph) => t' :: normGo cfg stack .none (some ph) r
+      | (none, ph) => normGo cfg stack .none (some ph) r
+  | stack, prev, none, t :: r =>
     let ctx := stack.headD .sel
     match t.tt with
-    | .whitespace => wsTok :: normGo cfg fuel stack .none none r
+    | .whitespace => if ctx == .nth then normGo cfg stack .none none r else wsTok :: normGo cfg stack .none none r
     | .function =>
       let name := lower t.data.dropLast
-      let nctx := if prev == .colon then ctxOfFn name else ctx
-      if nctx == .nth then
-        .mk .function (lower t.data) [] :: .mk .ident (anbSpan r).1 [] :: normGo cfg fuel (nctx :: stack) .none none (anbSpan r).2
-      else .mk .function (lower t.data) [] :: normGo cfg fuel (nctx :: stack) .none none r
-    | .leftParen => t :: normGo cfg fuel (ctx :: stack) .none none r
-    | .rightParen => t :: normGo cfg fuel (stack.drop 1) .none none r
-    | .leftBracket =>
-      if ctx == .sel then t :: normGo cfg fuel stack .none (some 0) r else t :: normGo cfg fuel stack .none none r
-    | .colon => t :: normGo cfg fuel stack (if ctx == .sel then .colon else .none) none r
+      .mk .function (lower t.data) [] ::
+        normGo cfg ((if prev == .colon && ctx != .keep then ctxOfFn name else ctx) :: stack) .none none r
+    | .leftParen => t :: normGo cfg (ctx :: stack) .none none r
+    | .rightParen => t :: normGo cfg (stack.drop 1) .none none r
+    | .leftBracket => t :: normGo cfg stack .none (some 0) r
+    | .colon => t :: normGo cfg stack .colon none r
     | .delim =>
-      if t.data == ['.'] && ctx == .sel then t :: normGo cfg fuel stack .dot none r
-      else t :: normGo cfg fuel stack .none none r
+      if t.data == ['.'] then t :: normGo cfg stack .dot none r
+      else if ctx == .nth then .mk anbTT t.data [] :: normGo cfg stack .none none r
+      else t :: normGo cfg stack .none none r
     | .ident =>
+      if prev == .dot then t :: normGo cfg stack .none none r else
       match ctx with
       | .sel =>
         let d :=
-          if prev == .dot then t.data
-          else if prev == .colon then lower t.data
+          if prev == .colon then lower t.data
           else if (match r with | n :: _ => isBar n | [] => false) then t.data     -- namespace prefix
           else if cfg.htmlTypes then lower t.data else t.data
-        .mk .ident d [] :: normGo cfg fuel stack .none none r
+        .mk .ident d [] :: normGo cfg stack .none none r
       | .nth =>
         let d := lower t.data
-        .mk .ident d [] :: normGo cfg fuel (if d == "of".toList then .sel :: stack.drop 1 else stack) .none none r
-      | .fold => .mk .ident (lower t.data) [] :: normGo cfg fuel stack .none none r
-      | .keep => t :: normGo cfg fuel stack .none none r
-    | _ => t :: normGo cfg fuel stack .none none r
+        if d == "of".toList then .mk .ident d [] :: normGo cfg (.sel :: stack.drop 1) .none none r
+        else .mk anbTT d [] :: normGo cfg stack .none none r
+      | .fold => .mk .ident (lower t.data) [] :: normGo cfg stack .none none r
+      | .keep => t :: normGo cfg stack .none none r
+    | .number | .dimension | .percentage =>
+      if ctx == .nth then .mk anbTT (lower t.data) [] :: normGo cfg stack .none none r
+      else t :: normGo cfg stack .none none r
+    | _ => t :: normGo cfg stack .none none r
 
-def selNorm (cfg : Cfg) (ts : List Tok) : List Tok := normGo cfg (ts.length + 1) [] .none none ts
+/-- An+B: the formula is its text without white space whatever the token boundaries (`2N + 1`, `2n+1`): adjacent
+fragments are joined -/
+def mergeAnb : List Tok → List Tok
+  | [] => []
+  | t :: r =>
+    match mergeAnb r with
+    | n :: r' => if t.tt == anbTT && n.tt == anbTT then .mk anbTT (t.data ++ n.data) [] :: r' else t :: n :: r'
+    | [] => [t]
+
+def selNorm (cfg : Cfg) (ts : List Tok) : List Tok := mergeAnb (normGo cfg [] .none none ts)
 
 def selEquiv (cfg : Cfg) (a b : List Tok) : Bool := selNorm cfg a == selNorm cfg b
 
